@@ -17,6 +17,30 @@ type blProblems map[string][]string // obligation suffix -> problems
 
 var counted128Re = regexp.MustCompile(`^for ;(\$\d+)<128(&&(\$\d+)<=(.+))?;(\$\d+)\+\+$`)
 
+// the same loop with the upper end clamped once: r <= min(high, 127)
+var clamped128Re = regexp.MustCompile(`^for ;(\$\d+)<=min\((.+)\);(\$\d+)\+\+$`)
+
+// counted128 recognises a rune loop that stays below 128: `for ; r < 128 [&& r <= high]; r++` or
+// `for ; r <= min(high, 127); r++`. The result has the shape of counted128Re's submatches.
+func counted128(text string) []string {
+	if m := counted128Re.FindStringSubmatch(text); m != nil {
+		return m
+	}
+	if m := clamped128Re.FindStringSubmatch(text); m != nil {
+		args := splitTop(m[2], ",")
+		if len(args) == 2 {
+			is127 := func(a string) bool { return a == "127" || a == "128-1" }
+			switch {
+			case is127(args[1]):
+				return []string{text, m[1], "&&", m[1], args[0], m[3]}
+			case is127(args[0]):
+				return []string{text, m[1], "&&", m[1], args[1], m[3]}
+			}
+		}
+	}
+	return nil
+}
+
 // basicLatinModel analyses BasicLatinLookup; the map keys are the obligation names used by C15-a / C01-d / C13-f.
 func (c *Ctx) basicLatinModel() (blProblems, *ast.FuncDecl) {
 	g := c.G()
@@ -212,7 +236,7 @@ func (c *Ctx) basicLatinModel() (blProblems, *ast.FuncDecl) {
 				for _, e2 := range seg {
 					switch e2.Kind {
 					case "loop":
-						c := counted128Re.MatchString(e2.Text)
+						c := counted128(e2.Text) != nil
 						open = append(open, c)
 						if c {
 							inCounted++
@@ -246,7 +270,7 @@ func (c *Ctx) basicLatinModel() (blProblems, *ast.FuncDecl) {
 				if e2.Kind != "loop" {
 					continue
 				}
-				mm := counted128Re.FindStringSubmatch(e2.Text)
+				mm := counted128(e2.Text)
 				if mm == nil {
 					continue
 				}
@@ -300,7 +324,7 @@ func (c *Ctx) basicLatinModel() (blProblems, *ast.FuncDecl) {
 						depth2--
 					}
 				}
-				if mm := counted128Re.FindStringSubmatch(e2.Text); mm != nil && mm[2] == "" {
+				if mm := counted128(e2.Text); mm != nil && mm[2] == "" {
 					start, _ := lastSet(seg[:j], mm[1])
 					if start != "rune(0)" && start != "0" {
 						add("decides-all-128-runes-by-membership-only", "rune loop over the class starts at "+start)
